@@ -94,6 +94,12 @@ M = [
   "    if not denoise_result:\n        # likely has failed completely", "    if not denoise_result or not denoise_result.succeeded:\n        # likely has failed completely"),
  ('C20', 'n13-shielding-default-true', 'rebench/denoise_client.py',
   'use_shielding = result.get("shielding", False)', 'use_shielding = result.get("shielding", True)'),
+ ('C20', 'p01-parallel-interrupt-not-handled', 'rebench/executor.py',
+  "        except KeyboardInterrupt:\n            # Only the main thread sees the interrupt.", "        except ZeroDivisionError:\n            # Only the main thread sees the interrupt."),
+ ('C20', 'p02-parallel-interrupt-no-kill', 'rebench/executor.py',
+  "            self._executor.running_processes.kill_all_and_refuse_more()", "            pass"),
+ ('C20', 'p03-parallel-interrupt-no-join', 'rebench/executor.py',
+  "            self._executor.running_processes.kill_all_and_refuse_more()\n            for thread in self._worker_threads:\n                thread.join()\n            raise", "            raise"),
  ('C20', 'n14-num-cores-minus-one', 'rebench/executor.py',
   'cmdline += "--num-cores " + str(num_cores) + " "', 'cmdline += "--num-cores " + str(num_cores - 1) + " "'),
 ]
